@@ -53,13 +53,193 @@ type c19Input struct {
 	OutageMs  int        `json:"outageMs"` // how long the server stays down
 	HoldAfter int        `json:"holdAfter"`
 	HoldMs    int        `json:"holdMs"`
-	ReqMs     int        `json:"reqMs"` // > 0: the syncer's cluster handle uses this request timeout (so that pulls FAIL during the outage)
+	Big       *c19Big    `json:"big,omitempty"` // large-prefix scenario (c19ExecBig); all other fields are ignored then
+	ReqMs     int        `json:"reqMs"`         // > 0: the syncer's cluster handle uses this request timeout (so that pulls FAIL during the outage)
 }
 
 // (continued: c19Input) HoldAfter / HoldMs: slow consumer. The consumer stops reading after it has received
 // HoldAfter snapshots and resumes HoldMs after the last write (lower bounds only): meanwhile the syncer
 // fills the 10-slot channel and blocks in its send; once the consumer drains, the last snapshot it
 // receives must be the final content, without any further write.
+
+// c19Big: a prefix with Keys keys (more than one "page" of any paged reader), a writer that keeps
+// committing ONE transaction {first key = i, last key = i} (so every content the store ever had has
+// first == last), and a SyncPrefix / SyncRawPrefix syncer pulling meanwhile.
+type c19Big struct {
+	Mode    string `json:"mode"` // prefix | rawprefix
+	Keys    int    `json:"keys"`
+	PullMs  int    `json:"pullMs"`
+	WriteMs int    `json:"writeMs"` // the writer runs at least this long (lower bound)
+	MinTxns int    `json:"minTxns"` // … and commits at least this many transactions
+}
+
+// c19BigSnap is the compact observation of one delivered snapshot.
+type c19BigSnap struct {
+	Count  int    `json:"count"`  // number of keys in the snapshot
+	First  string `json:"first"`  // value of the first key
+	Last   string `json:"last"`   // value of the last key
+	Others bool   `json:"others"` // every other key is present with its initial value "0"
+}
+
+type c19BigObs struct {
+	Big       bool         `json:"big"`
+	Keys      int          `json:"keys"`
+	Commits   int          `json:"commits"`   // transactions 1..Commits were acknowledged, in this order
+	WriteErrs int          `json:"writeErrs"` // failed transactions (may or may not have been applied)
+	Snaps     []c19BigSnap `json:"snaps"`
+	Converged bool         `json:"converged"`
+	Stopped   bool         `json:"stopped"` // the case was cut short at the first snapshot with first != last
+	SetupErr  string       `json:"setupErr,omitempty"`
+	ElapsedMs int64        `json:"elapsedMs"`
+}
+
+func c19ExecBig(b c19Big) interface{} {
+	c := c19Cluster
+	tStart := time.Now()
+	if b.Keys < 2 {
+		b.Keys = 2
+	}
+	if b.Keys > 5000 {
+		b.Keys = 5000
+	}
+	if b.PullMs <= 0 {
+		b.PullMs = 5
+	}
+	obs := c19BigObs{Big: true, Keys: b.Keys, Snaps: []c19BigSnap{}}
+	root := fmt.Sprintf("/verif/c19big/%d/", atomic.AddInt64(&c19Root, 1))
+	prefix := root + "b/"
+	name := func(i int) string { return fmt.Sprintf("%sk%05d", prefix, i) }
+	first, last := name(0), name(b.Keys-1)
+	defer c.DeletePrefix(root)
+	zero := "0"
+	for lo := 0; lo < b.Keys; lo += 400 {
+		batch := map[string]*string{}
+		for i := lo; i < lo+400 && i < b.Keys; i++ {
+			batch[name(i)] = &zero
+		}
+		if err := c.PutAndDelete(batch); err != nil {
+			obs.SetupErr = "setup"
+			return obs
+		}
+	}
+	sy, err := c.Syncer(time.Duration(b.PullMs) * time.Millisecond)
+	if err != nil {
+		obs.SetupErr = "syncer"
+		return obs
+	}
+	var mu sync.Mutex
+	var mixed int32
+	push := func(count int, get func(k string) (string, bool), each func(f func(k, v string))) {
+		sn := c19BigSnap{Count: count, Others: true}
+		sn.First, _ = get(first)
+		sn.Last, _ = get(last)
+		each(func(k, v string) {
+			if k != first && k != last && (v != "0" || !strings.HasPrefix(k, prefix)) {
+				sn.Others = false
+			}
+		})
+		mu.Lock()
+		obs.Snaps = append(obs.Snaps, sn)
+		mu.Unlock()
+		if sn.First != sn.Last {
+			atomic.StoreInt32(&mixed, 1)
+		}
+	}
+	closed := make(chan struct{})
+	if b.Mode == "rawprefix" {
+		ch, _ := sy.SyncRawPrefix(prefix)
+		go func() {
+			defer close(closed)
+			for kvs := range ch {
+				m := kvs
+				push(len(m), func(k string) (string, bool) {
+					kv, ok := m[k]
+					if !ok || kv == nil {
+						return "<missing>", false
+					}
+					return string(kv.Value), true
+				}, func(f func(k, v string)) {
+					for k, kv := range m {
+						if kv == nil || string(kv.Key) != k {
+							f(k, "<bad-entry>")
+						} else {
+							f(k, string(kv.Value))
+						}
+					}
+				})
+			}
+		}()
+	} else {
+		ch, _ := sy.SyncPrefix(prefix)
+		go func() {
+			defer close(closed)
+			for kvs := range ch {
+				m := kvs
+				push(len(m), func(k string) (string, bool) {
+					v, ok := m[k]
+					if !ok {
+						return "<missing>", false
+					}
+					return v, true
+				}, func(f func(k, v string)) {
+					for k, v := range m {
+						f(k, v)
+					}
+				})
+			}
+		}()
+	}
+	count := func() int { mu.Lock(); defer mu.Unlock(); return len(obs.Snaps) }
+	lastIs := func(v string) bool {
+		mu.Lock()
+		defer mu.Unlock()
+		n := len(obs.Snaps)
+		return n > 0 && obs.Snaps[n-1].First == v && obs.Snaps[n-1].Last == v
+	}
+	wait := func(cond func() bool, d time.Duration) bool {
+		end := time.Now().Add(d)
+		for !cond() {
+			if time.Now().After(end) || atomic.LoadInt32(&mixed) == 1 {
+				return false
+			}
+			time.Sleep(500 * time.Microsecond)
+		}
+		return true
+	}
+	wait(func() bool { return count() >= 1 }, 15*time.Second) // the initial snapshot (all "0")
+	// the writer: one transaction per step, first and last key get the same value
+	end := time.Now().Add(time.Duration(b.WriteMs) * time.Millisecond)
+	hardEnd := time.Now().Add(20 * time.Second)
+	for i := 1; (time.Now().Before(end) || obs.Commits < b.MinTxns) && time.Now().Before(hardEnd); i++ {
+		if atomic.LoadInt32(&mixed) == 1 || obs.WriteErrs > 0 {
+			break
+		}
+		v := fmt.Sprintf("%d", i)
+		if err := c.PutAndDelete(map[string]*string{first: &v, last: &v}); err != nil {
+			obs.WriteErrs++
+			break
+		}
+		obs.Commits = i
+	}
+	if atomic.LoadInt32(&mixed) == 1 {
+		obs.Stopped = true
+	} else if obs.WriteErrs == 0 {
+		want := fmt.Sprintf("%d", obs.Commits)
+		obs.Converged = wait(func() bool { return lastIs(want) }, 15*time.Second)
+		if atomic.LoadInt32(&mixed) == 1 {
+			obs.Stopped = true
+		}
+	}
+	sy.Close()
+	select {
+	case <-closed:
+	case <-time.After(3 * time.Second):
+	}
+	obs.ElapsedMs = time.Since(tStart).Milliseconds()
+	mu.Lock()
+	defer mu.Unlock()
+	return obs
+}
 
 type c19Obs struct {
 	Snaps      [][][2]string `json:"snaps"` // each snapshot: sorted [key,value] pairs, keys relative to the root
@@ -161,6 +341,9 @@ func c19Exec(raw json.RawMessage) interface{} {
 	var in c19Input
 	if err := json.Unmarshal(raw, &in); err != nil {
 		return map[string]string{"error": "bad-input"}
+	}
+	if in.Big != nil {
+		return c19ExecBig(*in.Big)
 	}
 	c := c19Cluster
 	tStart := time.Now()
@@ -638,6 +821,10 @@ func c19Gen(r *verifh.Rand, i int) interface{} {
 	}
 	if r.Bool(1, 20) {
 		return c19GenHold(r)
+	}
+	if verifh.Env().Thorough() && r.Bool(1, 150) {
+		return c19Input{Big: &c19Big{Mode: r.Pick("prefix", "rawprefix"), Keys: r.PickInt(600, 1100, 1100, 1600), PullMs: r.PickInt(2, 5, 10),
+			WriteMs: r.PickInt(300, 600, 1000), MinTxns: r.PickInt(30, 60)}}
 	}
 	return in
 }
